@@ -49,6 +49,18 @@ fn eval(name: &str, a: &[i64]) -> Option<Vec<i128>> {
             }
         }
         "max_power_of_2" => vec![allsorts::subset::verif_max_power_of_2(a[0] as u16) as i128],
+        // numTables, searchRange, entrySelector, rangeShift of a font with a[0] tables written by
+        // subset::whole_font over a synthetic provider (head, maxp + a[0]-2 four-byte tables)
+        "sfnt_search_fields" => {
+            let n = a[0] as usize;
+            if n < 2 {
+                return None;
+            }
+            let tags: Vec<u32> = (0..(n - 2) as u32).map(|i| 0x4100_0000 + i).collect();
+            let bytes = allsorts::subset::whole_font(&Synthetic, &tags).ok()?;
+            let be = |at: usize| ((bytes[at] as i128) << 8) | bytes[at + 1] as i128;
+            vec![0, be(4), be(6), be(8), be(10)]
+        }
         "long_align" => vec![allsorts::binary::long_align(a[0] as usize) as i128],
         "word_align" => vec![allsorts::binary::word_align(a[0] as usize) as i128],
         "offset_size" => match allsorts::cff::verif_offset_size(a[0] as usize) {
@@ -57,6 +69,32 @@ fn eval(name: &str, a: &[i64]) -> Option<Vec<i128>> {
         },
         _ => return None,
     })
+}
+
+/// Provider for `sfnt_search_fields`: a valid head and maxp, every other tag is 4 bytes.
+struct Synthetic;
+
+impl allsorts::tables::FontTableProvider for Synthetic {
+    fn table_data(&self, tag: u32) -> Result<Option<std::borrow::Cow<'_, [u8]>>, allsorts::error::ParseError> {
+        const HEAD: u32 = 0x6865_6164;
+        const MAXP: u32 = 0x6D61_7870;
+        Ok(Some(std::borrow::Cow::Owned(match tag {
+            HEAD => {
+                let mut h = vec![0u8; 54];
+                h[1] = 1;
+                h[12..16].copy_from_slice(&[0x5F, 0x0F, 0x3C, 0xF5]);
+                h
+            }
+            MAXP => vec![0, 0, 0x50, 0, 0, 1],
+            _ => vec![1, 2, 3, 4],
+        })))
+    }
+    fn has_table(&self, _tag: u32) -> bool {
+        true
+    }
+    fn table_tags(&self) -> Option<Vec<u32>> {
+        None
+    }
 }
 
 fn main() {
